@@ -53,6 +53,9 @@ pub enum Op {
     /// `replay_stage()` of the export kept aside by the last StageSave (if any)
     /// `older`: replay the export saved before the most recent one (two exports can be outstanding)
     StageRestore { r: usize, older: bool },
+    /// `replay_stage()` on `r` of what `from` has staged right now (or, if nothing, of its last kept export):
+    /// staged work travels between replicas without a commit
+    StageForeign { r: usize, from: usize },
     /// direct object API on one tracked element: kind 0 update_object(fields), 1 delete_object,
     /// 2 remove_object, 3 create_object(fields) on that or on a new identifier
     ObjOp { r: usize, kind: u8, id_sel: u32, fields: Value },
@@ -90,7 +93,7 @@ impl Op {
         use Op::*;
         match self {
             Update { r, .. } | Commit { r, .. } | Meld { r, .. } | Refresh { r } | Reload { r } | ReloadUntil { r, .. }
-            | Resolve { r, .. } | Unstage { r } | StageRoundTrip { r } | Snapshot { r } | StageSave { r, .. } | StageRestore { r, .. } | ObjOp { r, .. } | Restart { r }
+            | Resolve { r, .. } | Unstage { r } | StageRoundTrip { r } | Snapshot { r } | StageSave { r, .. } | StageRestore { r, .. } | StageForeign { r, .. } | ObjOp { r, .. } | Restart { r }
             | FailWrites { r, .. } | DiskFull { r, .. } | Read { r, .. } => Some(*r),
             Send { to, .. } | SendAll { to, .. } => Some(*to),
             Tick | Partition { .. } | Heal | Converge { .. } => None,
@@ -113,6 +116,7 @@ impl Op {
             Snapshot { .. } => "snapshot",
             StageSave { .. } => "stage_save",
             StageRestore { .. } => "stage_restore",
+            StageForeign { .. } => "stage_foreign",
             ObjOp { .. } => "objop",
             Send { .. } => "send",
             SendAll { .. } => "sendall",
@@ -147,6 +151,7 @@ impl Op {
             Snapshot { r } => json!({"op":"snapshot","r":r}),
             StageSave { r, keep } => json!({"op":"stage_save","r":r,"keep":keep}),
             StageRestore { r, older } => json!({"op":"stage_restore","r":r,"older":older}),
+            StageForeign { r, from } => json!({"op":"stage_foreign","r":r,"from":from}),
             ObjOp { r, kind, id_sel, fields } => json!({"op":"objop","r":r,"kind":kind,"id_sel":id_sel,"fields":fields}),
             Send { from, to, sel, delay, dup, drop } => json!({"op":"send","from":from,"to":to,"sel":sel,"delay":delay,"dup":dup,"drop":drop}),
             SendAll { from, to } => json!({"op":"sendall","from":from,"to":to}),
@@ -182,6 +187,7 @@ impl Op {
             "snapshot" => Op::Snapshot { r: u("r")? },
             "stage_save" => Op::StageSave { r: u("r")?, keep: b("keep") },
             "stage_restore" => Op::StageRestore { r: u("r")?, older: b("older") },
+            "stage_foreign" => Op::StageForeign { r: u("r")?, from: u("from")? },
             "objop" => Op::ObjOp { r: u("r")?, kind: u("kind")? as u8, id_sel: u32_("id_sel")?, fields: o.get("fields").cloned().unwrap_or(Value::Null) },
             "send" => Op::Send { from: u("from")?, to: u("to")?, sel: u32_("sel")?, delay: u32_("delay")?, dup: b("dup"), drop: b("drop") },
             "sendall" => Op::SendAll { from: u("from")?, to: u("to")? },
